@@ -14,6 +14,8 @@ use serde_json::json;
 struct C03Monitor {
     ledger: Ledger,
     last_hash: u64,
+    /// every key a CA of this instance has ever been seen to hold -> owner
+    key_owner: BTreeMap<String, String>,
 }
 
 impl C03Monitor {
@@ -23,6 +25,58 @@ impl C03Monitor {
     /// for a dropped key shows a revocation that had no effect.
     fn dropped_key_check(w: &World, obs: &oracle::Observation) -> Vec<Issue> {
         oracle::dropped_key_issues(w, obs)
+    }
+
+    fn note_keys(&mut self, w: &World) {
+        for ca in w.ca_handles() {
+            if ca == "ta" { continue }
+            let roles = key_roles(w, &ca);
+            for k in roles.active.iter().chain(roles.new.iter())
+                .chain(roles.old.iter()).chain(roles.pending.iter())
+            {
+                self.key_owner.insert(k.clone(), ca.clone());
+            }
+        }
+    }
+
+    /// A CA drops a key when its roll is finished, its class or parent is
+    /// removed or the CA is deleted - all of them on the CA's own
+    /// initiative, and each time it withdraws what that key published, at
+    /// every publication server the key used. Once background work has
+    /// caught up, no object this ledger has seen under such a key may still
+    /// be served (wherever its directory is, reachable from the trust
+    /// anchor or not).
+    fn dropped_key_objects(
+        &self, w: &World, obs: &oracle::Observation
+    ) -> Vec<Issue> {
+        let mut held: BTreeSet<String> = BTreeSet::new();
+        for ca in w.ca_handles() {
+            if ca == "ta" { continue }
+            let roles = key_roles(w, &ca);
+            held.extend(roles.active.iter().cloned());
+            held.extend(roles.new.iter().cloned());
+            held.extend(roles.old.iter().cloned());
+            held.extend(roles.pending.iter().cloned());
+        }
+        let mut issues = vec![];
+        for ((key, serial), o) in &self.ledger.entries {
+            let Some(owner) = self.key_owner.get(key) else { continue };
+            if held.contains(key) || w.oracle_skip.contains(owner) { continue }
+            if let Some(b) = obs.files.get(&o.uri) {
+                let hash = hex::encode(
+                    rpki::rrdp::Hash::from_data(b).as_slice());
+                if hash == o.hash {
+                    issues.push((
+                        format!("object-of-dropped-key-still-published:{}", o.kind),
+                        format!("{} (serial {serial}) was issued under key \
+                                 {key} of {owner}, which {owner} no longer \
+                                 has; it is still served", o.uri),
+                    ));
+                }
+            }
+        }
+        issues.truncate(3);
+        issues
     }
 }
 
@@ -87,6 +141,7 @@ impl Monitor for C03Monitor {
         }
         let Some(obs) = oracle::observe(w) else { return vec![] };
         r.eval();
+        self.note_keys(w);
         let before = self.ledger.entries.len();
         self.ledger.record(&obs.view);
         self.ledger.cause_now = op.kind().to_string();
@@ -116,6 +171,8 @@ impl Monitor for C03Monitor {
                     r.count("ledger_classifications", c2);
                     issues.extend(i2);
                     issues.extend(Self::dropped_key_check(w, &obs));
+                    r.count("dropped_key_object_checks", 1);
+                    issues.extend(self.dropped_key_objects(w, &obs));
                     // "removed from configuration ... is gone from the
                     // repository": the ledger alone calls an object current
                     // as long as its manifest lists it; what is validated
